@@ -125,12 +125,16 @@ class Repo:
         self.by_relpath: Dict[str, ModuleInfo] = {}
         self._parents: Dict[int, Dict[int, ast.AST]] = {}
         self.alpha_renamed = 0
+        self.equiv_stats: Dict[str, list] = {}
         if alpha:
             from .alpha import load_reference
+            from .equiv import load_reference_sources
 
             self.alpha_ref = load_reference()
+            self.ref_sources = load_reference_sources() if os.environ.get("ACSA_NO_EQUIV") != "1" else {}
         else:
             self.alpha_ref = {}
+            self.ref_sources = {}
         self._load()
         self._mro_cache: Dict[ClassInfo, List[ClassInfo]] = {}
 
@@ -158,6 +162,15 @@ class Repo:
                 tree = ast.parse(src, filename=rel)
             except SyntaxError as exc:
                 raise AnalysisError(f"{rel} does not parse: {exc}") from exc
+            if self.ref_sources and self.ref_sources.get(rel) != src:
+                # functions re-expressed in a provably equivalent way are analysed as their
+                # reference version (acsa/equiv.py); never a source of violations
+                from .equiv import substitute_equivalents
+
+                try:
+                    substitute_equivalents(rel, tree, self.ref_sources, self.equiv_stats)
+                except Exception as exc:  # the normaliser must never break an analysis
+                    self.equiv_stats.setdefault("errors", []).append(f"{rel}: {exc!r}")
             if self.alpha_ref:
                 from .alpha import normalise_module
 
